@@ -33,7 +33,7 @@ fs.writeFileSync(path.join(V, 'seeded', 'INDEX.md'), md)
     try { const r = fs.readFileSync(path.join(V, 'seeded', d, 'README.md'), 'utf8'); const t = r.split('\n').find(l => /^#\s/.test(l)); idea = (t || '').replace(/^#\s*/, '').replace(/seeded change[^:—-]*[:—-]?\s*/i, '').slice(0, 90) } catch (e) {}
     rows.push(`| ${d} | ${m.breaks_property} | ${fired.join(' ') || '—'} | ${missedFirst ? 'missed, workload/oracle strengthened' : 'yes'} | ${idea.replace(/\|/g, '\\|')} |`)
   }
-  const summary = Object.keys(rounds).sort().map(r => `round ${r}: ${rounds[r].n} changes, ${rounds[r].first} caught by the target check as first built, ${rounds[r].now} caught now`).join('; ')
+  const summary = Object.keys(rounds).sort((a, b) => a - b).map(r => `round ${r}: ${rounds[r].n} changes, ${rounds[r].first} caught by the target check as first built, ${rounds[r].now} caught now`).join('; ')
   const block = `<!-- SEEDS-TABLE-BEGIN -->\n${summary}.\n\n| change | breaks | quick checks that fire now (seed 1) | caught when first run | idea |\n|---|---|---|---|---|\n${rows.join('\n')}\n<!-- SEEDS-TABLE-END -->`
   const dp = path.join(V, 'DESIGN.md')
   let ds = fs.readFileSync(dp, 'utf8')
